@@ -22,7 +22,9 @@ def hx(s):
 def unhx4(h):
     if h == "-":
         return ""
-    return "".join(chr(int(h[i:i + 4], 16)) for i in range(0, len(h), 4))
+    t = "".join(chr(int(h[i:i + 4], 16)) for i in range(0, len(h), 4))
+    # UTF-16 code units -> characters (surrogate pairs combined, lone surrogates kept)
+    return t.encode("utf-16-le", "surrogatepass").decode("utf-16-le", "surrogatepass")
 
 
 def gen_text(r, rich=True, maxlen=6):
